@@ -7,7 +7,18 @@ package props
 // Part A drives utxo.SpinLock alone, Part B the real state machine (DoTx / SelectUtxos /
 // PlayAndRepost on one node) under the cooperative scheduler hx.Sched: every request is a thread,
 // the yield points are the verifhook points of the real lock protocol, every scheduling choice is
-// a rapid draw and the executed schedule is part of the replayable trace.
+// a rapid draw and the executed schedule is part of the replayable trace. Part C (TestRaceC12) runs
+// the Part B scenarios as real goroutines for a -race binary.
+//
+// Oracle of Part B: the model comparison (admitted set applies in some one-at-a-time order; every
+// observable equals model + admitted set; a play evicts only what it may; selectors get disjoint
+// existing outputs; a refused transaction that is still valid is admitted after quiescence; memory
+// == disk). If the model comparison fails, the statement itself is evaluated: every one-at-a-time
+// order of the same requests is executed on a replica node, and only a result that no serial order
+// reproduces is a violation (a defect of the sequential code is C01/C03's business, not C12's).
+//
+// Environment (development aids): C12_NO_EXCLUDE=1 switches the exclusions of active findings off;
+// C12_PART=A|B runs one part; C12_NO_SERIAL_CHECK=1 reports model mismatches without the replica check.
 
 import (
 	"bytes"
@@ -287,8 +298,10 @@ func c12LockTx(tid int, keys []c12LK) *pb.Transaction {
 	return tx
 }
 
-// c12LockShape: the trigger shape of the release/delete window - some key is locked in shared mode
-// by >= 2 threads while another thread locks it exclusively.
+// c12LockShape: the scenario half of the trigger of finding C12-spinlock-release-delete-window - some
+// key is locked in shared mode by >= 2 threads while another thread locks it exclusively. The other
+// half is a schedule that pre-empts a thread at one of c12WindowPoints. While the finding is active
+// such scenarios are still generated, but their schedules go through c12NoWindowPreempt.
 func c12LockShape(threads []c12LockThread) (string, bool) {
 	sh := map[string]map[int]bool{}
 	ex := map[string]map[int]bool{}
@@ -766,10 +779,12 @@ func c12TxKeys(tx *pb.Transaction) map[string]bool {
 	return out
 }
 
-// c12StateShape: trigger shape of the release/delete window at the state level - some key is read
+// c12StateShape: the scenario half of the finding's trigger at the state level - some key is read
 // (shared lock) by >= 2 of the concurrently submitted transactions and written (exclusive lock) by
 // >= 2 of them. (Two readers and one writer only let a reader and the writer overlap, which is
-// serialisable: the reader goes first.) The same transaction submitted twice counts twice.
+// serialisable: the reader goes first; the end-state oracle needs two overlapping writers.) The same
+// transaction submitted twice counts twice. Part B keeps such scenarios and routes their schedules
+// through c12NoWindowPreempt; Part C (no scheduler) does not emit them while the finding is active.
 func c12StateShape(keysets []map[string]bool) (string, bool) {
 	sh, ex := map[string]int{}, map[string]int{}
 	for _, ks := range keysets {
@@ -849,6 +864,10 @@ func c12Prepare(nm *hx.NodeMachine, reqs []c12Req) *c12Env {
 			}
 		case "play":
 			b := rq.Block
+			if nm.Window != 0 {
+				r.skip = "play-needs-window-0" // the play bookkeeping below mirrors the node machine's for window 0 only
+				continue
+			}
 			if e.playReq >= 0 || b <= 0 || b >= len(m.Blocks) || !m.Blocks[b].Stored || m.Blocks[b].Parent != nm.Ptr || !nm.Valid[b] || nm.States[b] == nil {
 				r.skip = "bad-block"
 				continue
@@ -1104,6 +1123,50 @@ func c12RaceRun(nm *hx.NodeMachine, prefix []hx.NOp, reqs []c12Req, fs *hx.Findi
 	return out
 }
 
+// checkState compares the live node with model + pool. While outputs are still locked by a locking
+// selection of this phase (60 s), the node machine's own CheckState cannot be used - it probes
+// SelectUtxos without locking, which skips locked outputs - so the observables (pointer, total,
+// balances, UTXO table, key versions) and the pool set are compared directly; after the reopen that
+// ends every case the locks are gone and the full CheckState runs.
+func (e *c12Env) checkState() error {
+	nm := e.nm
+	locked := false
+	for i, r := range e.runs {
+		if e.reqs[i].Kind == "select" && r.skip == "" && r.err == nil && len(r.lockKeys) > 0 {
+			locked = true
+		}
+	}
+	if !locked {
+		return nm.CheckState()
+	}
+	m := nm.LM.M
+	want := hx.ExpectedObs(nm.PoolState(), m.Blocks[nm.Ptr].ID, nm.AddrUniv, e.rawKeys(), e.h)
+	got := hx.ObserveState(nm.N, nm.AddrUniv, e.rawKeys())
+	delete(got, "meta")
+	if d := hx.DiffObs(want, got); d != "" {
+		return fmt.Errorf("state observables differ from the model at %s with %d pending (model -> node): %s", m.Blocks[nm.Ptr].Label, len(nm.Pool), d)
+	}
+	cur, err := nm.N.State.GetUnconfirmedTx(false)
+	if err != nil {
+		return fmt.Errorf("GetUnconfirmedTx: %v", err)
+	}
+	wantIDs := map[string]bool{}
+	for _, t := range nm.Pool {
+		wantIDs[string(t.Txid)] = true
+	}
+	seen := map[string]bool{}
+	for _, t := range cur {
+		if !wantIDs[string(t.Txid)] || seen[string(t.Txid)] {
+			return fmt.Errorf("the pool yields %s which the model does not have pending (or twice); model pool %s", hx.Hex8(t.Txid), c12TxIDs(nm.Pool))
+		}
+		seen[string(t.Txid)] = true
+	}
+	if len(seen) != len(wantIDs) {
+		return fmt.Errorf("the pool yields %d transactions, the model has %d pending %s", len(seen), len(wantIDs), c12TxIDs(nm.Pool))
+	}
+	return nil
+}
+
 // judge applies the end-state oracle after all requests have finished. race = the requests ran as
 // real goroutines (no scheduler): SelectUtxos is then not an atomic step.
 func (e *c12Env) judge(outp *c12Outcome, prefix []hx.NOp, fs *hx.FindingSet, race bool) {
@@ -1140,7 +1203,7 @@ func (e *c12Env) judge(outp *c12Outcome, prefix []hx.NOp, fs *hx.FindingSet, rac
 			resub = append(resub, i)
 			out.label("resubmitted-after-quiescence")
 		}
-		if err := nm.CheckState(); err != nil {
+		if err := e.checkState(); err != nil {
 			fail("after resubmitting refused transactions: %v", err)
 			return
 		}
@@ -1339,15 +1402,10 @@ func (e *c12Env) modelOracle(out *c12Outcome) error {
 			}
 			out.label("admitted-then-evicted-by-play")
 		}
-		nm.Ptr = b
-		if nm.Window > 0 {
-			if ih := m.Blocks[b].Height - nm.Window; ih > nm.Irrev {
-				nm.Irrev = ih
-			}
-		}
+		nm.Ptr = b // (window 0: the node machine's applied() has nothing else to record)
 		nm.Pool = order
 	}
-	if err := nm.CheckState(); err != nil {
+	if err := e.checkState(); err != nil {
 		return fmt.Errorf("after the concurrent phase (admitted %s, play ok=%v): %v", c12TxIDs(A), played, err)
 	}
 	return nil
@@ -2205,31 +2263,8 @@ func TestC12(t *testing.T) {
 	}
 	cfg := c12PrefixCfg()
 	serialNotes := 0
-	dbgDeviates := func() bool { return false }
-	if f := os.Getenv("C12_DBG_TRACE"); f != "" {
-		b, _ := os.ReadFile(f)
-		var doc struct{ Trace json.RawMessage }
-		json.Unmarshal(b, &doc)
-		trd, _ := c12DecodeStateTrace(doc.Trace)
-		dbgDeviates = func() bool {
-			o2, _ := runC12StateWith(trd, fs, c12ReplayPicker(trd.Sched))
-			return o2.SerialNote != "" || o2.Err != nil
-		}
-		t.Logf("C12 DBG: before exploration deviates=%v", dbgDeviates())
-	}
-	dbgCase, dbgFlipped := 0, false
-	c.Check(t, "state-schedules", hx.N(500, 12000), func(cs *hx.Case) {
+	c.Check(t, "state-schedules", hx.N(1000, 15000), func(cs *hx.Case) {
 		rt := cs.RT()
-		dbgCase++
-		if !dbgFlipped && os.Getenv("C12_DBG_TRACE") != "" {
-			defer func() {
-				if dbgDeviates() {
-					dbgFlipped = true
-					b, _ := json.Marshal(cs.Trace)
-					t.Logf("C12 DBG: deviates after case %d: %s", dbgCase, b)
-				}
-			}()
-		}
 		sc := c12GenStateCase(t, cs, fs, cfg)
 		if sc == nil {
 			return
@@ -2256,18 +2291,6 @@ func TestC12(t *testing.T) {
 		}
 		if out.SerialNote != "" {
 			serialNotes++
-			if os.Getenv("C12_DBG") == "1" {
-				b, _ := json.Marshal(cs.Trace)
-				tr2, _ := c12DecodeStateTrace(b)
-				hits := 0
-				for k := 0; k < 10; k++ {
-					o2, _ := runC12StateWith(tr2, fs, c12ReplayPicker(tr2.Sched))
-					if o2.SerialNote != "" || o2.Err != nil {
-						hits++
-					}
-				}
-				t.Logf("C12 DBG: in-process replays of the noted trace that deviate from the model: %d/10", hits)
-			}
 			if serialNotes <= 2 {
 				b, _ := json.Marshal(cs.Trace)
 				t.Logf("C12 note (not a C12 violation): %s; trace %s", out.SerialNote, b)
